@@ -65,6 +65,21 @@ pub enum Base {
     BigBytes { seed: u32, len: usize },
     /// `String` of `len` printable-ASCII pattern bytes
     BigStr { seed: u32, len: usize },
+    /// a user-defined value type that calls `flush()` on the writer it is handed before it
+    /// encodes the integer (legal: the writer is `W: Write`); only used as the first cell of a text row
+    FlushThenI32(i32),
+}
+
+/// see `Base::FlushThenI32`
+pub struct Flusher(pub i32);
+impl ToMysqlValue for Flusher {
+    fn to_mysql_text<W: Write>(&self, w: &mut W) -> io::Result<()> {
+        w.flush()?;
+        self.0.to_mysql_text(w)
+    }
+    fn to_mysql_bin<W: Write>(&self, w: &mut W, c: &Column) -> io::Result<()> {
+        self.0.to_mysql_bin(w, c)
+    }
 }
 
 pub fn big_bytes(seed: u32, len: usize) -> Vec<u8> {
@@ -156,6 +171,7 @@ pub fn dispatch<S: Sink>(val: &Val, sink: &mut S) -> io::Result<()> {
         Base::My(m) => wrapped(m.to_my(), w, sink),
         Base::BigBytes { seed, len } => wrapped(big_bytes(*seed, *len), w, sink),
         Base::BigStr { seed, len } => wrapped(big_str(*seed, *len), w, sink),
+        Base::FlushThenI32(x) => sink.put(Flusher(*x)),
     }
 }
 
